@@ -198,3 +198,19 @@ pub fn run(cfg: &Cfg, rep: &mut Report) {
     rep.sample(json!({"triple":[0xC2,9,55],"pair":"Foreign->Structured","expected":"all 15 accessors equal; bytes (0xC2,9,0) on the Structured side"}));
     rep.sample(json!({"triple":[0x95,64,0],"pair":"Structured->ForeignBytes","expected":"is_note_off true on both; bytes equal"}));
 }
+
+/// thinned slice for the Miri side run (supporting evidence only)
+pub fn miri_slice(rep: &mut Report) {
+    for s in 0x80u16..=0xFF {
+        for (d1, d2) in [(0u8, 0u8), (0x7F, 1), (0x75, 127)] {
+            let s = s as u8;
+            base::<StructuredShortMessage, RawShortMessage>("Structured", true, s, d1, d2, rep);
+            base::<ForeignBytes, RawShortMessage>("ForeignBytes", false, s, d1, d2, rep);
+            pair::<RawShortMessage, StructuredShortMessage>("Raw", "Structured", false, true, s, d1, d2, rep);
+            pair::<StructuredShortMessage, Foreign>("Structured", "Foreign", true, false, s, d1, d2, rep);
+            pair::<Foreign, ForeignBytes>("Foreign", "ForeignBytes", false, false, s, d1, d2, rep);
+            pair::<ForeignBytes, RawShortMessage>("ForeignBytes", "Raw", false, false, s, d1, d2, rep);
+            rep.evaluations += 6;
+        }
+    }
+}
